@@ -26,10 +26,30 @@ def build(ctx):
                      flags=pool_common.TUNE + ['-DDISPENSO_TUNE_WAKE_GROUP_SIZE=2'])
 
 
+def check_model(ctx, module, cfg, what, **kw):
+    """ctx.check_model with a small heap (the models are small, the machine is shared) and one retry when
+    the JVM disappears without a verdict (killed from outside: 'TLC did not finish')"""
+    kw.setdefault('heap', '3g')
+    kw.setdefault('workers', 4)
+    kw.setdefault('timeout', 1500)
+    try:
+        return ctx.check_model(SPEC, module, cfg, what, **kw)
+    except vlib.ToolError as e:
+        if 'TLC did not finish' not in str(e):
+            raise
+        vlib.log('NOTE: TLC ended without a verdict on %s/%s; running it once more' % (module, cfg))
+        return ctx.check_model(SPEC, module, cfg, what, **kw)
+
+
 def negative_control(ctx, module, cfg, what, expect):
     """The model of the code BEFORE the fix must violate the property (expect = invariant name): shows
     that the specification can exhibit the defect and that the invariant detects it."""
-    res = ctx.tlc(SPEC, module, cfg, workers=4, label='negative control: ' + what, timeout=300, count=False)
+    try:
+        res = ctx.tlc(SPEC, module, cfg, workers=4, label='negative control: ' + what, timeout=300, count=False, heap='3g')
+    except vlib.ToolError as e:
+        if 'TLC did not finish' not in str(e):
+            raise
+        res = ctx.tlc(SPEC, module, cfg, workers=4, label='negative control: ' + what, timeout=300, count=False, heap='3g')
     ctx.cov.setdefault('negative_controls', []).append(
         {'cfg': cfg, 'what': what, 'violation': res.violation, 'states': res.distinct})
     if res.violation != 'Invariant ' + expect:
@@ -143,7 +163,12 @@ def validate_all(ctx, parts, what, module, cfg, label):
     with open(tr, 'w') as f:
         for p, _ in parts:
             f.write(open(p).read())
-    return ctx.validate(SPEC, module, cfg, tr, what + ' [' + label + ']', executions=sum(n for _, n in parts), label=label)
+    try:
+        return ctx.validate(SPEC, module, cfg, tr, what + ' [' + label + ']', executions=sum(n for _, n in parts), label=label, heap='3g')
+    except vlib.ToolError as e:
+        if 'TLC did not finish' not in str(e):
+            raise
+        return ctx.validate(SPEC, module, cfg, tr, what + ' [' + label + ']', executions=sum(n for _, n in parts), label=label, heap='3g')
 
 
 def run_free(ctx, exe, scens, runs, seed, what, module, cfg, label, validate=True):
